@@ -454,5 +454,6 @@ pub fn c18(args: &Args, rep: &mut Report) {
         rep.inc("loom_models");
     }
     set_features(UNDEFINED);
-    rep.sample(json!({"side": "c", "threads": [["init", "update(3000)", "update(6000)", "finalize_seek(0,150)"], ["init_keyed", "update(6000)", "finalize_seek(2^38-64,150)"]], "feature_cache": "UNDEFINED at the start of every execution; its load and store are scheduling points", "preemption_bound": 2}));
+    let (s0a, s0b, s1) = c_sizes();
+    rep.sample(json!({"side": "c", "threads": [["init", format!("update({})", s0a), format!("update({})", s0b), "finalize_seek(0,150)"], ["init_keyed", format!("update({})", s1), "finalize_seek(2^38-64,150)"]], "feature_cache": "UNDEFINED at the start of every execution; its load and store are scheduling points", "preemption_bounds": "1, then 2 (3 thorough) if small at bound 1"}));
 }
